@@ -13,10 +13,16 @@ checks = [prop]
 if '--checks' in sys.argv:
     checks = sys.argv[sys.argv.index('--checks') + 1].split(',')
 prefix = sys.argv[sys.argv.index('--prefix') + 1] if '--prefix' in sys.argv else ''
-SV = '/tmp/seedverify'
+seed = sys.argv[sys.argv.index('--seed') + 1] if '--seed' in sys.argv else '0'
+SV = '/tmp/seedverify_' + prop + prefix
+RR = '/tmp/seedrepo_' + prop + prefix     # the checks run against this scratch worktree (VERIF_REPO), not /repo itself
 sh('git -C /repo worktree remove --force %s' % SV)
 shutil.rmtree(SV, ignore_errors=True)
 rc, out = sh('git -C /repo worktree add -q --detach %s HEAD' % SV)
+assert rc == 0, out
+sh('git -C /repo worktree remove --force %s' % RR)
+shutil.rmtree(RR, ignore_errors=True)
+rc, out = sh('git -C /repo worktree add -q --detach %s HEAD' % RR)
 assert rc == 0, out
 results = []
 try:
@@ -43,16 +49,16 @@ try:
         confirmed = r['tests_pass_with_change'] and r['demo_fails_with_change'] and r['demo_passes_without']
         r['confirmed'] = confirmed
         # run my checks against it
-        sh('git -C /repo checkout -- .')
-        rc, out = sh('git -C /repo apply %s/patch.diff' % d)
+        sh('git -C %s checkout -- .' % RR)
+        rc, out = sh('git -C %s apply %s/patch.diff' % (RR, d))
         r['detected_by'] = {}
         try:
             for c in checks:
-                rc, out = sh('cd /verif && ./check %s --tier quick' % c)
+                rc, out = sh('cd /verif && VERIF_REPO=%s VERIF_SEED=%s ./check %s --tier quick' % (RR, seed, c))
                 line = [l for l in out.split('\n') if l.startswith('VIOLATION')]
                 r['detected_by'][c] = dict(exit=rc, line=line[0] if line else '', tail=out.strip().split('\n')[-1][:200])
         finally:
-            sh('git -C /repo checkout -- .')
+            sh('git -C %s checkout -- .' % RR)
         if confirmed:
             dest = '/verif/seeded/%s-%s%s' % (prop, prefix, k)
             os.makedirs(dest, exist_ok=True)
@@ -65,7 +71,7 @@ try:
             json.dump(meta, open(os.path.join(dest, 'meta.json'), 'w'), indent=1)
         results.append(r)
 finally:
-    sh('git -C /repo checkout -- .')
     sh('git -C /repo worktree remove --force %s' % SV)
+    sh('git -C /repo worktree remove --force %s' % RR)
 for r in results:
     print(json.dumps(r)[:900])
